@@ -45,6 +45,21 @@ Declared(h) ==
           len  |-> ((h[6] % 128) * 16777216) + h[7] * 65536 + h[8] * 256 + h[9]]
 
 \* split a raw byte sequence into frames: [hdr, complete (header complete), supplied (payload bytes present)]
+Min2(a, b) == IF a < b THEN a ELSE b
+\* the same for a stream of which only a head s is at hand (total = its real length): payload bytes need not be seen
+RECURSIVE ParseRawT(_, _, _)
+ParseRawT(s, i, total) ==
+    IF i > Len(s) \/ i > total THEN <<>>
+    ELSE LET hl == HdrLen(s[i]) IN
+         IF i + hl - 1 > total
+         THEN <<[hdr |-> SubSeq(s, i, Min2(Len(s), total)), complete |-> FALSE, supplied |-> 0]>>
+         ELSE IF i + hl - 1 > Len(s) THEN <<>>          \* the head ends inside this header: nothing more can be said
+         ELSE LET h == SubSeq(s, i, i + hl - 1)
+                  d == Declared(h)
+                  avail == total - (i + hl - 1)
+              IN IF d.huge \/ d.neg \/ d.len >= avail
+                 THEN <<[hdr |-> h, complete |-> TRUE, supplied |-> avail]>>
+                 ELSE <<[hdr |-> h, complete |-> TRUE, supplied |-> d.len]>> \o ParseRawT(s, i + hl + d.len, total)
 RECURSIVE ParseRaw(_, _)
 ParseRaw(s, i) ==
     IF i > Len(s) THEN <<>>
